@@ -17,7 +17,7 @@ from .. import models
 from ..core import RunResult, adigest, mix
 from ..driver import pristine_library_state
 from .hist_common import SAME, TAU, clone, contain, draw_container, quiet, with_entropy
-from .hist_common import call_value as _call_value
+from .hist_common import call_value as _call_value, maybe_interrupted_call
 from .pool_common import maybe_integer_dtype, symmetric_game
 
 
@@ -34,7 +34,7 @@ COMPONENTS = {"real": ["toqito.nonlocal_games.NonlocalGame (constructor, from_bc
 RULE = ("one run = one or two game objects of the same shape and different contents (1..3 answers x 1..3 questions per player, unequal allowed; reps 2 for <=2x2x2x2; or from_bcs_game with 1..3 constraints over 2..3 variables) and 3..8 value-method calls "
         "in seeded order with repetition (classical, non-signaling, NPA level 1 / '1+ab' / 2, see-saw lower bound under seeded entropy); non-trivial = >=2 distinct methods, at least one repeated, "
         "some value strictly between 0 and 1; distinct = distinct digest of (game, operation sequence, entropy values)")
-SHRINK_ORDER = ["config", "game", "ops"]  # "game:2", "ops:which" sort after these
+SHRINK_ORDER = ["config", "game", "ops", "intr"]  # "game:2", "ops:which" sort after these
 
 
 def _mod():
@@ -198,10 +198,36 @@ class Subject:
     """One game object of the history with its shadows and reference models."""
 
 
-def make_subject(M, res, kind, gs, like=None):
+def reshaped_twin(st, sub0):
+    """The SAME numbers in the same order read as a game of ANOTHER shape: question counts exchanged
+    (X, Y) -> (Y, X) and / or answer counts exchanged, by reshaping, not transposing.  A different game whose
+    buffers are byte-identical to the first one's - what a key made of the contents alone cannot tell apart."""
+    a, b, x, y = sub0.base_pred.shape
+    opts = []
+    if x != y:
+        opts.append((a, b, y, x))
+    if a != b:
+        opts.append((b, a, x, y))
+    if x != y and a != b:
+        opts.append((b, a, y, x))
+    if not opts:
+        return None
+    shape = opts[st.draw(len(opts))]
+    prob = np.ascontiguousarray(sub0.base_prob).reshape(shape[2], shape[3]).copy()
+    pred = np.ascontiguousarray(sub0.base_pred).reshape(shape).copy()
+    meta = {"kind": "tensor", "shape": list(shape), "pred_kind": "reshaped_twin_of_object_0", "prob_kind": sub0.meta.get("prob_kind")}
+    return prob, pred, meta
+
+
+def make_subject(M, res, kind, gs, like=None, given=None):
     sub = Subject()
     sub.kind, sub.reps = kind, 1
-    if kind == "bcs":
+    if given is not None:
+        sub.base_prob, sub.base_pred, sub.meta = given
+        sub.exp_prob, sub.exp_pred = models.product_game(sub.base_prob, sub.base_pred, 1)
+        sub.forms = [draw_container(gs), draw_container(gs)]
+        sub.reps_arg = 1
+    elif kind == "bcs":
         sub.base_cons, sub.meta = draw_bcs(gs, like=like)
         sub.exp_prob, sub.exp_pred = bcs_model(sub.base_cons)
     else:
@@ -257,6 +283,10 @@ def make_subject(M, res, kind, gs, like=None):
     return sub
 
 
+def cfg_twin(cs):
+    return cs.s("config:twin").draw(5) == 0
+
+
 def _pub(meta):
     return {k: v for k, v in meta.items() if not k.startswith("_")}
 
@@ -274,7 +304,18 @@ def run(cs, tier, run_index):
     # one or two game objects of the same shape and different contents live in the same history:
     # anything the library keeps between calls (a cache keyed on shape, say) meets a different game
     two = cfg.draw(3) == 2 or run_index % 8 == 7
-    subs = [make_subject(M, res, kind, cs.s("game"))]
+    first_like = None
+    if run_index % 16 == 13:
+        # a lopsided game: one player has 2**63 or more deterministic strategies (63..66 binary or 40..42 ternary
+        # questions) which are never enumerated - the other one has a handful; only the bookkeeping sees the big number
+        kind = "tensor"
+        ls = cs.s("game:lopsided")
+        big = [(2, 63), (2, 64), (2, 65), (2, 66), (3, 40), (3, 41), (3, 42), (4, 32), (2, 128)][ls.draw(9)]
+        small = (ls.int_range(2, 3), ls.int_range(1, 2))
+        shp = (big[0], small[0], big[1], small[1]) if ls.draw(2) else (small[0], big[0], small[1], big[1])
+        first_like = {"shape": list(shp)}
+        res.probe("lopsided_game_2^63_strategies")
+    subs = [make_subject(M, res, kind, cs.s("game"), like=first_like)]
     if subs[0] is None:
         return res
     if two:
@@ -283,6 +324,14 @@ def run(cs, tier, run_index):
             return res
         subs.append(s2)
         res.probe("two_objects_same_shape")
+    if kind == "tensor" and (run_index % 8 == 3 or cfg_twin(cs)):
+        tw = reshaped_twin(cs.s("game:twin"), subs[0])
+        if tw is not None:
+            s3 = make_subject(M, res, kind, cs.s("game:twin"), given=tw)
+            if s3 is None:
+                return res
+            subs.append(s3)
+            res.probe("reshaped_twin_same_bytes")
     res.probe({"bcs": "bcs_game", "reps2": "reps2_game", "tensor": "tensor_game"}[kind])
     shape = subs[0].shape
     if len(shape) == 4 and shape[0] != shape[1]:
@@ -319,6 +368,8 @@ def run(cs, tier, run_index):
                 res.violate("C07.op.raises", op=["deepcopy", "pickle", "copy"][how], exc=type(e).__name__, msg=str(e)[:200], position=k, **meta)
                 break
             res.probe("object_cloned")
+        with with_entropy(ent):
+            maybe_interrupted_call(cs, res, apply(sub.game, op))
         with with_entropy(ent):
             out = call_value(apply(sub.game, op), res, op["op"])
         res.log.add("op", k, si, key, out[1] if out[0] == "ok" else out[:2])
